@@ -160,7 +160,13 @@ def two_route_case(rng):
     return c
 
 
+def _many(c, i, var):
+    return ("V%d" % i if i else "S") if var else "t%d" % i
+
+
 def vval(c, i):
+    if c["vc"] == "manyterms":
+        return _many(c, i, True)
     if c["vc"] == "inject":
         # order injection: the harness chooses the hash, hence the iteration order of the variable set
         from vf.values import K
@@ -171,6 +177,8 @@ def vval(c, i):
 
 
 def tval(c, j):
+    if c["vc"] == "manyterms":
+        return _many(c, j, False)
     names = TERMS["str" if c["vc"] == "inject" else c["vc"]]
     return names[j] if j < len(names) else "t%d" % j
 
